@@ -105,8 +105,9 @@ class Shim:
             out = np.int64(v) if size is None else np.asarray(v, dtype=np.int64).reshape(size)
         a = int(low) if high is None else int(high) - int(low)
         if self.script is not None and self.randint_max and a > 0:
-            out = np.int64((0 if high is None else int(low)) + a - 1)    # a legal outcome of THIS call
-        self.calls.append({"fn": "randint", "n": 0, "p": [0, 1], "a": a, "size": 0,
+            top = (0 if high is None else int(low)) + a - 1               # a legal outcome of THIS call
+            out = np.int64(top) if size is None else np.full(size, top, dtype=np.int64)
+        self.calls.append({"fn": "randint", "n": 0, "p": [0, 1], "a": a, "size": 0 if size is None else int(np.prod(size)),
                            "out": int(out) if size is None else [int(x) for x in np.asarray(out).reshape(-1)]})
         return out
 
